@@ -60,7 +60,11 @@ class SpMat:
                 if isinstance(e, Sym) or e != 0:
                     I.append(i); J.append(j)
         return _np.array(I, dtype=int), _np.array(J, dtype=int)
+    def __array__(self, dtype=None, copy=None):
+        return self.a
     def __getitem__(self, idx):
+        if isinstance(idx, tuple):
+            idx = tuple(i.astype(int) if isinstance(i, _np.ndarray) and i.dtype == object else i for i in idx)
         r = self.a[idx]
         if isinstance(idx, tuple) and len(idx) == 2 and all(isinstance(i, _np.ndarray) for i in idx) and r.ndim == 1:
             return SpMat(r.reshape(1, -1))      # scipy returns a 1 x n matrix for paired fancy indexing
